@@ -80,6 +80,30 @@ def sources(j, g, tmpdir, rng):
     A(("from_hyperedge_dict", lambda: xgi.from_hyperedge_dict({k: m for k, m in enumerate(members)})))
     A(("copy", lambda: H0.copy()))
     A(("pickle", lambda: pickle.loads(pickle.dumps(H0))))
+
+    def sparse(cls=xgi.Hypergraph):
+        """ids that are not 0..m-1: an edge removed, a gap left by an explicit id"""
+        K = cls()
+        if cls is xgi.SimplicialComplex:
+            K.add_simplices_from(nonempty)
+            K.add_simplex([g.node(5), g.node(6)], idx=9)
+        elif cls is xgi.DiHypergraph:
+            K.add_edges_from([(m[:1], m[1:]) for m in nonempty])
+            K.add_edge(([g.node(5)], [g.node(6)]), idx=9)
+        else:
+            K.add_edges_from(members)
+            K.add_edge([g.node(5), g.node(6)], idx=9)
+        if K.num_edges > 1:
+            first = list(K.edges)[0]
+            (K.remove_simplex_id if cls is xgi.SimplicialComplex else K.remove_edge)(first)
+        return K
+    import copy as _copy
+
+    for cname, cls_ in (("Hypergraph", xgi.Hypergraph), ("DiHypergraph", xgi.DiHypergraph), ("SimplicialComplex", xgi.SimplicialComplex)):
+        A((f"pickle({cname} with sparse ids)", lambda cls_=cls_: pickle.loads(pickle.dumps(sparse(cls_)))))
+        A((f"deepcopy({cname} with sparse ids)", lambda cls_=cls_: _copy.deepcopy(sparse(cls_))))
+        A((f"copy({cname} with sparse ids)", lambda cls_=cls_: sparse(cls_).copy()))
+        A((f"{cname}({cname} with sparse ids)", lambda cls_=cls_: cls_(sparse(cls_))))
     A(("convert_labels_to_integers", lambda: xgi.convert_labels_to_integers(H0)))
     A(("cleanup(in_place=False)", lambda: H0.cleanup(in_place=False, connected=False)))
     A(("dual", lambda: H0.dual()))
